@@ -297,11 +297,12 @@ func TestC06Run(t *testing.T) {
 		setupActs := genActs(r, len(p.tab), 6, &mb, kit.Pick(r, 0, 0, 15, 40))
 		var iters atomic.Int64
 		var lateBody atomic.Int64
-		var tornDown atomic.Bool
+		var tornDown, setupOK atomic.Bool
 		scenario := func(st *f1testing.T) f1testing.RunFn {
 			// first registered = last to run: marks the end of the teardown phase
 			st.Cleanup(func() { tornDown.Store(true) })
 			p.exec(st, setupActs)
+			setupOK.Store(!st.Failed()) // reached only when the setup neither panicked nor stopped
 			return func(t *f1testing.T) {
 				if tornDown.Load() {
 					lateBody.Add(1)
@@ -364,7 +365,7 @@ func TestC06Run(t *testing.T) {
 		// a cancel before the first tick legitimately yields zero iterations: the model only
 		// says whether iterations are allowed to run, so report "ran" as "allowed" in that case
 		ran := iters.Load() > 0
-		if !ran && !out.Result.Failed() && ending == "cancel" {
+		if !ran && setupOK.Load() && ending == "cancel" {
 			ran = true
 			o.Count("run", "cancelled-before-first-iteration")
 		}
